@@ -422,7 +422,7 @@ def edit_build_cases(rng, tier):
     for _ in range(40 if tier == 'quick' else 800):
         add(gen_edit_items(rng, valid=False), False)
     # many files
-    sizes = [60, 300] if tier == 'quick' else [60, 300, 1000, 2500, 5000] + [rng.range(100, 1500) for _ in range(12)]
+    sizes = [60, 300] if tier == 'quick' else [60, 300, 1000, 2000, 3000] + [rng.range(100, 800) for _ in range(12)]
     for nf in sizes:
         add(gen_edit_items(rng, nfiles=nf), True)
     return out
@@ -447,8 +447,9 @@ def edit_followups(rng, tier, built):
                 cuts = sorted(set(c for c in cuts if c in ends or (c + 1) in ends or (c - 1) in ends) |
                               set(rng.below(n) for _ in range(25)))
         else:
-            ends = record_ends(e)
-            cuts = sorted(set([rng.choice(ends) + d for d in (-1, 0, 1) for _ in range(6)] + [rng.below(n) for _ in range(8)]))
+            # (the model's slice_read measures the whole remaining input, so one import costs O(n^2))
+            ends = record_ends(e); k = 6 if n < 20000 else (2 if n < 100000 else 1)
+            cuts = sorted(set([rng.choice(ends) + d for d in (-1, 0, 1) for _ in range(k)] + [rng.below(n) for _ in range(k)]))
             cuts = [c for c in cuts if 0 <= c < n]
         for c in cuts:
             out.append(('edit_import %s' % hx(enc[:c]), {'kind': 'import_cut', 'enc': enc[:c], 'cut': c}))
